@@ -289,6 +289,72 @@ class Models:
         def wrap(vi, rs):
             return [(s, variant(vi, sub)) for (s, sub) in rs]
 
+        @reg("std::option::Option::take", "std::mem::take")
+        def take_(c):
+            """Option::take / mem::take on an Option: hands out the current value and leaves None (the type's default) behind"""
+            v = c.argv(0)
+            if v[0] != "r":
+                return None
+            cur = c.eng.subtree(c.st, v[1], v[2])
+            if "mem::take" in c.base and cur.get(("$discr",)) is None:
+                return None        # only Options are modelled (their default is None)
+            c.set_dest(cur)
+            c.eng.write_subtree(c.st, v[1], v[2], {("$discr",): ICONST(0)}, c.node)
+            return [c.st]
+
+        @reg("std::option::Option::replace", "std::mem::replace")
+        def replace_(c):
+            """mem::replace(dest, new) / Option::replace(&mut self, value): returns the old value, stores the new one"""
+            v = c.argv(0)
+            if v[0] != "r":
+                return None
+            cur = c.eng.subtree(c.st, v[1], v[2])
+            new = dict(c.args[1][0])
+            if "Option::replace" in c.base:
+                new = {(("v", 1), 0) + k: x for k, x in new.items()}
+                new[("$discr",)] = ICONST(1)
+            c.set_dest(cur)
+            c.eng.write_subtree(c.st, v[1], v[2], new, c.node)
+            return [c.st]
+
+        @reg("std::option::Option::transpose")
+        def opt_transpose(c):
+            """Option<Result<T, E>> -> Result<Option<T>, E>"""
+            outs = []
+            for (vi, s2) in c.fork_discr(0, 2):
+                if vi == 0:
+                    c.set_dest({("$discr",): ICONST(0), (("v", 0), 0, "$discr"): ICONST(0)}, s2)
+                    outs.append(s2)
+                    continue
+                inner = c.payload(s2, 0, ("v", 1), field0=True, typed=False)
+                d = inner.get(("$discr",))
+                if d is None:
+                    base = inner.get(())
+                    d = c.eng.project(base[1], ("$discr",), None) if base is not None and base[0] == "t" else I(lin.var(c.eng.fresh("discr", (0, 1))))
+                for rv in (0, 1):
+                    s3 = s2.fork() if rv == 0 else s2
+                    cons = [lin.le(d[1], lin.const(rv)), lin.le(lin.const(rv), d[1])] if d[0] == "i" else []
+                    if cons and s3.ctx.infeasible_with(cons):
+                        continue
+                    for cc in cons:
+                        s3.ctx.add(cc)
+                    pre = (("v", rv), 0)
+                    pl = {k[2:]: x for k, x in inner.items() if len(k) >= 2 and k[:2] == pre}
+                    if not pl:
+                        base = inner.get(())
+                        pl = {(): c.eng.project(base[1], pre, None)} if base is not None and base[0] == "t" else {(): T(("payload", c.site, 0, rv))}
+                    if rv == 0:
+                        out = {("$discr",): ICONST(0), (("v", 0), 0, "$discr"): ICONST(1)}
+                        for k, x in pl.items():
+                            out[(("v", 0), 0, ("v", 1), 0) + k] = x
+                    else:
+                        out = {("$discr",): ICONST(1)}
+                        for k, x in pl.items():
+                            out[(("v", 1), 0) + k] = x
+                    c.set_dest(out, s3)
+                    outs.append(s3)
+            return outs
+
         @reg("core::str::<impl str>::parse")
         def str_parse(c):
             """text.parse::<T>() for a crate-local T is T's FromStr impl: interpret it (numbers keep the default treatment)"""
@@ -308,6 +374,19 @@ class Models:
                 c.ev.inlined = True
             outs = c.eng.inline(c.fr, c.bb, c.st, c.t, callee, [c.args[0]], c.dest, ev2, {})
             return [s2 for (_, s2) in outs]
+
+        @reg("std::iter::Iterator::flat_map", "std::iter::Iterator::map")
+        def lazy_map(c):
+            """a lazy adapter: the inner iterator's view plus the callable (consumed by Vec::extend; opaque elsewhere)"""
+            out = {k: x for k, x in c.args[0][0].items() if k == ("$over",) or k == ("$len",)}
+            out[()] = T(("app", c.base, c.site, (c.argv(0),)))
+            out[("$adapter",)] = T((c.base.rsplit("::", 1)[-1],))
+            for k, x in c.args[1][0].items():
+                out[("$f",) + k] = x
+            if c.args[1][1] is not None:
+                out[("$fti",)] = ICONST(c.args[1][1])
+            c.set_dest(out)
+            return [c.st]
 
         @reg("std::ops::FnOnce::call_once", "std::ops::FnMut::call_mut", "std::ops::Fn::call")
         def call_callable(c):
@@ -603,6 +682,33 @@ class Models:
             v = c.argv(0)
             if v[0] != "r":
                 return None
+            ad = c.args[1][0].get(("$adapter",))
+            if ad is not None and ad[0] == "t" and ad[1][0] in ("flat_map", "map"):
+                # buf.extend(items.iter().flat_map(f)): zero or more times  buf.extend(f(item)).  One state leaves the vector as
+                # it is (no item); the other stands for "after some item": an accumulated prefix followed by f(item)'s bytes -
+                # the same two layouts a loop `for item in items { buf.extend(f(item)) }` yields.
+                asub = c.args[1][0]
+                fsub = {k[1:]: x for k, x in asub.items() if k and k[0] == "$f"}
+                ft = asub.get(("$fti",))
+                fti = const_of(ft) if ft is not None else None
+                over = asub.get(("$over",))
+                item = {(): ("r", over[1], tuple(over[2]) + ("E",), False)} if over is not None and over[0] == "r" else {(): T(("item-of", c.site))}
+                outs = []
+                s_none = c.st.fork()
+                c.set_dest({(): T(("unit", "()"))}, s_none)
+                outs.append(s_none)
+                for (s2, res) in c.eng.invoke_callable(c.fr, c.bb, c.st, c.t.get("t"), fsub, fti, [item]):
+                    if ad[1][0] == "flat_map":
+                        tail = segs_of(c, s2, res)
+                    else:
+                        x = res.get(())
+                        tail = [("byte", x)] if x is not None and x[0] in ("i", "b") else [("seg", x if x is not None else ("agg", ()), None)]
+                    c.eng.write(s2, v[1], v[2] + ("$len",), I(lin.var(c.eng.fresh("len", (0, ISIZE_MAX)))), c.node)
+                    c.eng.write_subtree(s2, v[1], v[2] + ("E",), {(): T(("elem-of", c.argv(1)))}, c.node)
+                    set_layout(c, s2, v[1], v[2], [("acc", (ad[1][0], c.site))] + tail)
+                    c.set_dest({(): T(("unit", "()"))}, s2)
+                    outs.append(s2)
+                return outs
             segs = cur_layout(c, c.st, v) + segs_of(c, c.st, c.args[1][0])
             add_len(c, c.st, v, len_of_sub(c, c.st, c.args[1][0]))
             c.eng.write_subtree(c.st, v[1], v[2] + ("E",), {(): T(("elem-of", c.argv(1)))}, c.node)
@@ -774,6 +880,108 @@ class Models:
                                 ("$slice_from",): I(s)}
             c.set_dest({(): ("r", root, (), v[3])})
             return [c.st]
+
+        def subslice(c, st, v, s_, e_, tag):
+            root = ("H", (c.site, tag))
+            st.store[root] = {("$len",): I(lin.sub(e_, s_)), ("$slice_of",): ("r", v[1], v[2], False), ("$slice_from",): I(s_)}
+            if c.eng.record:
+                c.eng.index_log.append((c.node, c.fr.id, tag, s_, e_))
+            return ("r", root, (), v[3])
+
+        @reg("core::slice::<impl [T]>::split_at", "core::slice::<impl [T]>::split_at_mut", "core::str::<impl str>::split_at")
+        def split_at(c):
+            """slice.split_at(mid) = (&slice[..mid], &slice[mid..]); panics when mid > len"""
+            v = c.argv(0)
+            if v[0] != "r":
+                return None
+            ln = c.eng.read_len(c.st, v[1], v[2])[1]
+            mid = c.eng.as_lin(c.argv(1), c.args[1][1])
+            c.eng.require(c.st, c.fr, c.bb, "range", "split_at(mid): mid <= len", [lin.le(mid, ln)])
+            c.set_dest({(0,): subslice(c, c.st, v, lin.const(0), mid, "split_at.0"), (1,): subslice(c, c.st, v, mid, ln, "split_at.1")})
+            return [c.st]
+
+        @reg("core::slice::<impl [T]>::first", "core::slice::<impl [T]>::last", "core::slice::<impl [T]>::first_mut", "core::slice::<impl [T]>::last_mut")
+        def first_last(c):
+            """Some(&element) iff the slice is not empty"""
+            v = c.argv(0)
+            if v[0] != "r":
+                return None
+            ln = c.eng.read_len(c.st, v[1], v[2])[1]
+            outs = []
+            s2 = c.st.fork()
+            if not s2.ctx.infeasible_with([lin.le(lin.const(1), ln)]):
+                s2.ctx.add(lin.le(lin.const(1), ln))
+                c.set_dest({("$discr",): ICONST(1), (("v", 1), 0): ("r", v[1], tuple(v[2]) + ("E",), v[3])}, s2)
+                outs.append(s2)
+            s3 = c.st
+            if not s3.ctx.infeasible_with([lin.le(ln, lin.const(0))]):
+                s3.ctx.add(lin.le(ln, lin.const(0)))
+                c.set_dest({("$discr",): ICONST(0)}, s3)
+                outs.append(s3)
+            return outs
+
+        @reg("core::slice::<impl [T]>::split_first", "core::slice::<impl [T]>::split_last")
+        def split_first(c):
+            """Some((&element, &rest)) iff the slice is not empty"""
+            v = c.argv(0)
+            if v[0] != "r":
+                return None
+            ln = c.eng.read_len(c.st, v[1], v[2])[1]
+            outs = []
+            s2 = c.st.fork()
+            if not s2.ctx.infeasible_with([lin.le(lin.const(1), ln)]):
+                s2.ctx.add(lin.le(lin.const(1), ln))
+                if c.base.endswith("split_first"):
+                    rest = subslice(c, s2, v, lin.const(1), ln, "split_first")
+                else:
+                    rest = subslice(c, s2, v, lin.const(0), lin.sub(ln, lin.const(1)), "split_last")
+                c.set_dest({("$discr",): ICONST(1), (("v", 1), 0, 0): ("r", v[1], tuple(v[2]) + ("E",), v[3]), (("v", 1), 0, 1): rest}, s2)
+                outs.append(s2)
+            s3 = c.st
+            if not s3.ctx.infeasible_with([lin.le(ln, lin.const(0))]):
+                s3.ctx.add(lin.le(ln, lin.const(0)))
+                c.set_dest({("$discr",): ICONST(0)}, s3)
+                outs.append(s3)
+            return outs
+
+        @reg("std::array::<impl std::convert::TryFrom<&[T]> for [T; N]>::try_from",
+             "std::array::<impl std::convert::TryFrom<&'a [T]> for &'a [T; N]>::try_from")
+        def array_try_from(c):
+            """<[T; N]>::try_from(slice): Ok (the N elements) iff slice.len() == N"""
+            prog = c.eng.prog
+            v = c.argv(0)
+            n = None
+            dt = prog.types[c.dest[2]] if c.dest[2] is not None else None
+            if dt is not None and dt["k"] == "adt" and dt.get("args"):
+                at = prog.types[prog.peel_refs(dt["args"][0])]
+                if at["k"] == "array" and str(at.get("len", "")).isdigit():
+                    n = int(at["len"])
+            if v[0] != "r" or n is None:
+                return None
+            ln = c.eng.read_len(c.st, v[1], v[2])[1]
+            outs = []
+            s2 = c.st.fork()
+            eq = [lin.le(ln, lin.const(n)), lin.le(lin.const(n), ln)]
+            if not s2.ctx.infeasible_with(eq):
+                for cc in eq:
+                    s2.ctx.add(cc)
+                if "&'a [T; N]" in c.base:
+                    out = {("$discr",): ICONST(0), (("v", 0), 0): v}
+                else:
+                    ti_el = None
+                    out = {("$discr",): ICONST(0), (("v", 0), 0, "$len"): ICONST(n)}
+                    for i in range(min(n, 16)):
+                        out[(("v", 0), 0, ("a", i))] = c.eng.read(s2, v[1], tuple(v[2]) + ("E",), prog.types[prog.peel_refs(dt["args"][0])]["inner"])
+                c.set_dest(out, s2)
+                outs.append(s2)
+            for cons in ([lin.lt(ln, lin.const(n))], [lin.lt(lin.const(n), ln)]):
+                s3 = c.st.fork()
+                if s3.ctx.infeasible_with(cons):
+                    continue
+                s3.ctx.add(cons[0])
+                c.set_dest({("$discr",): ICONST(1), (("v", 1), 0): T(("app", "TryFromSliceError", c.site, ()))}, s3)
+                outs.append(s3)
+            return outs
 
         @reg("std::ops::RangeInclusive::new")
         def range_incl_new(c):
@@ -1332,6 +1540,8 @@ class Models:
             for dst_ in ("u8", "u16", "u32"):
                 if src_ != dst_:
                     tb["std::convert::num::<impl std::convert::TryFrom<%s> for %s>::try_from" % (src_, dst_)] = try_from_int
+                    # conversions from / to the pointer-sized types live in a sibling module
+                    tb["std::convert::num::ptr_try_from_impls::<impl std::convert::TryFrom<%s> for %s>::try_from" % (src_, dst_)] = try_from_int
 
         def int_cmp(c):
             """a.cmp(&b) on integers: Less (-1) / Equal (0) / Greater (1)"""
